@@ -569,6 +569,85 @@ theorem PMT_flip_returns (s t : PMT) (h : PMT_WF s) (hs : s.pkt.sync = 0x47)
     refine ⟨_, Eq.trans ?_ this⟩
     simp [List.append_assoc]
 
+/-! ### a stale CRC: the corrupted section is still the encoding of well-formed field values -/
+
+/-- two buffers `F ‖ B ‖ T` and `F ‖ B' ‖ T` that differ in exactly one byte differ inside `B` -/
+theorem one_diff_middle {α} (F B B' T pre suf : List α) (a a' : α) (hne : a ≠ a') (hl : B.length = B'.length)
+    (h : F ++ (B ++ T) = pre ++ a :: suf) (h' : F ++ (B' ++ T) = pre ++ a' :: suf) :
+    ∃ p q, B = p ++ a :: q ∧ B' = p ++ a' :: q := by
+  by_cases c1 : pre.length < F.length
+  · obtain ⟨s1, e1, _⟩ := split_left _ _ pre suf a h c1
+    obtain ⟨s2, e2, _⟩ := split_left _ _ pre suf a' h' c1
+    rw [e1] at e2
+    have := List.append_cancel_left e2
+    simp only [List.cons.injEq] at this
+    exact absurd this.1 hne
+  · obtain ⟨pre2, rfl, e1⟩ := split_right _ _ pre suf a h (by omega)
+    have e2 : B' ++ T = pre2 ++ a' :: suf := by
+      rw [List.append_assoc] at h'
+      exact List.append_cancel_left h'
+    by_cases c2 : pre2.length < B.length
+    · obtain ⟨s1, b1, t1⟩ := split_left _ _ pre2 suf a e1 c2
+      obtain ⟨s2, b2, t2⟩ := split_left _ _ pre2 suf a' e2 (by omega)
+      rw [t1] at t2
+      have := List.append_cancel_right t2
+      subst this
+      exact ⟨pre2, s1, b1, b2⟩
+    · obtain ⟨p3, r1, t1⟩ := split_right _ _ pre2 suf a e1 (by omega)
+      obtain ⟨p4, r2, t2⟩ := split_right _ _ pre2 suf a' e2 (by omega)
+      have hl34 : p3.length = p4.length := by
+        have := congrArg List.length r1
+        have := congrArg List.length r2
+        simp only [List.length_append] at *
+        omega
+      rw [t1] at t2
+      have := (List.append_inj t2 hl34).2
+      simp only [List.cons.injEq] at this
+      exact absurd this.1 hne
+
+/-- **one changed byte that leaves a well-formed section with a stale CRC.**  `s'` is any well-formed
+    object in the same packet frame (`s'.pkt = s.pkt`) such that the corrupted buffer is: the packet
+    header, adaptation bytes and pointer field of `s`, the section fields of `s'`, the CRC and stuffing
+    of `s`.  Then the decoder RETURNS False.  This covers every one-byte change of a descriptor tag or
+    data byte, a stream type, elementary PID or ES descriptor byte, and of the non-length bits of the
+    fixed part — wherever the result is again the encoding of well-formed field values. -/
+theorem PMT_stale_crc_false (s s' t : PMT) (h' : PMT_WF s') (hpkt : s'.pkt = s.pkt)
+    (hs : s.pkt.sync = 0x47) (hafc : s.pkt.adaption_ctrl = 1 ∨ s.pkt.adaption_ctrl = 3)
+    (pre suf : Bytes) (a a' : UInt8) (hbuf : Pkt_bytes (PMT_pkt s) = pre ++ a :: suf) (hne : a ≠ a')
+    (hbuf' : pre ++ a' :: suf = (Pkt_hdr (PMT_pkt s) ++ Pkt_af (PMT_pkt s) ++ [0]) ++
+      (PMT_hdr s' ++ (PMT_loops s' ++ (PMT_crc4 s ++ Pkt_stuffing (PMT_pkt s))))) :
+    (PMT.unpack t (pre ++ a' :: suf)).2 = .ok false := by
+  have e1 : Pkt_hdr (PMT_pkt s') = Pkt_hdr (PMT_pkt s) := by
+    show Pkt_hdr { s'.pkt with payload := PMT_payload s' } = Pkt_hdr { s.pkt with payload := PMT_payload s }
+    rw [hpkt]; rfl
+  have e2 : Pkt_af (PMT_pkt s') = Pkt_af (PMT_pkt s) := by
+    show Pkt_af { s'.pkt with payload := PMT_payload s' } = Pkt_af { s.pkt with payload := PMT_payload s }
+    rw [hpkt]; rfl
+  obtain ⟨hst1, hst2⟩ := PMT_hdr_steer s' h'
+  have hCl : (PMT_crc4 s).length = 4 := by simp [PMT_crc4]
+  have hres := PMT_section_result_wf s' t h' (by rw [hpkt]; exact hs) (by rw [hpkt]; exact hafc) (PMT_hdr s') (PMT_crc4 s)
+    (Pkt_stuffing (PMT_pkt s)) (PMT_hdr_length s') hCl (by rw [hst1, PMT_loops_length]) hst2
+  rw [e1, e2, ← hbuf'] at hres
+  rw [hres]
+  have hcrc0 : beNat (PMT_crc4 s) = crc32mpeg2 (PMT_hdr s ++ PMT_loops s) := by
+    have : crc32mpeg2 (PMT_body s) < 256 ^ 4 := by unfold crc32mpeg2; omega
+    have e : PMT_body s = PMT_hdr s ++ PMT_loops s := rfl
+    rw [← e]
+    simp only [PMT_crc4, encInt, if_true]
+    exact beNat_beBytes_of_lt 4 _ this
+  rw [PMT_bytes_parts s] at hbuf
+  have hl : (PMT_hdr s ++ PMT_loops s).length = (PMT_hdr s' ++ PMT_loops s').length := by
+    have l1 := congrArg List.length hbuf
+    have l2 := congrArg List.length hbuf'
+    simp only [List.length_append, List.length_cons] at l1 l2 ⊢
+    omega
+  obtain ⟨p, q, b1, b2⟩ := one_diff_middle (Pkt_hdr (PMT_pkt s) ++ Pkt_af (PMT_pkt s) ++ [0])
+    (PMT_hdr s ++ PMT_loops s) (PMT_hdr s' ++ PMT_loops s') (PMT_crc4 s ++ Pkt_stuffing (PMT_pkt s)) pre suf a a' hne hl
+    (by rw [← hbuf]; simp [List.append_assoc]) (by rw [hbuf']; simp [List.append_assoc])
+  rw [hcrc0, b1, b2]
+  have := crc_detects_byte p q a a' hne
+  simpa using this
+
 /-! ### single-bit flips as single-byte changes -/
 
 theorem flip_nibble_aux : ∀ n, n < 256 → ∀ j, j < 8 → 4 ≤ j →
